@@ -320,9 +320,12 @@ def _init_pairs(prog, stores):
     why = ""
     if len(t) == 1 and len(p) == 1 and isinstance(t[0][3], ast.List) and isinstance(p[0][3], ast.List) \
             and len(t[0][3].elts) == 1 and len(p[0][3].elts) == 1:
-        pcs = mcmc.posterior_calls(p[0][3])
-        ok = len(pcs) == 1 and U(pcs[0].args[0]) == U(t[0][3].elts[0])
-        why = f"theta=[{U(t[0][3].elts[0])}] probs={U(p[0][3])}"
+        rzi = Resolver(init, prog, c.module, c)
+        pterm = rzi.term(p[0][3], p[0][2])
+        tterm = rzi.term(t[0][3].elts[0], t[0][2])
+        pcs = mcmc.posterior_calls(pterm)
+        ok = len(pcs) == 1 and U(pcs[0].args[0]) == U(tterm)
+        why = f"theta=[{U(tterm)[:80]}] probs={U(pterm)[:120]}"
     out.append(struct_ob("init-pair", qual(c, init), ok, "P[0] must be posterior(S[0]): " + why, rel, init.lineno))
     # EnsembleSampler
     c, init = prog.method("EnsembleSampler", "__init__")
@@ -392,12 +395,16 @@ def _exchange(prog):
         i, j = [e.id for e in loop.target.elts]
         # the reply tables: fields 0 / 1 of the per-chain replies
         tables = {}
+        bound = []
         for s_ in sw.body:
-            if isinstance(s_, ast.Assign) and isinstance(s_.targets[0], ast.Name):
-                t_ = rs.term(s_.value, s_)
-                for fld in (0, 1):
-                    if pmatch(t_, f"[_e[{fld}] for _e in [_p.recv() for _p in self.connections]]") is not None:
-                        tables[fld] = s_.targets[0].id
+            if isinstance(s_, ast.Assign):
+                for t0 in s_.targets:
+                    bound.extend(x.id for x in (t0.elts if isinstance(t0, (ast.Tuple, ast.List)) else [t0]) if isinstance(x, ast.Name))
+        for nm in bound:
+            t_ = rs.term(ast.Name(id=nm, ctx=ast.Load()), loop)
+            for fld in (0, 1):
+                if pmatch(t_, f"[_e[{fld}] for _e in [_p.recv() for _p in self.connections]]") is not None:
+                    tables[fld] = nm
         detail, crossed, good = [], [], True
         sends = [(n, rs.stmt_of(n)) for n in ast.walk(loop) if isinstance(n, ast.Call) and isinstance(n.func, ast.Attribute)
                  and n.func.attr == "send" and isinstance(n.func.value, ast.Subscript) and U(n.func.value.value) == "self.connections"]
@@ -447,43 +454,32 @@ def _exchange(prog):
 
 
 def _mode(c, fn, st):
-    ret = last_return(fn)
-    txt = U(ret.value) if ret else ""
-    src = {U(s.targets[0]): s.value for s in fn.body if isinstance(s, ast.Assign)}
-    # locate argmax over the whole P store
-    am = None
-    for n in ast.walk(fn):
-        if isinstance(n, ast.Call):
-            f = U(n.func)
-            if f == "argmax" and n.args and U(n.args[0]) == f"self.{st.P}":
-                am = n
-            elif f == f"self.{st.P}.argmax" and not n.args:
-                am = n
-    ok = am is not None
-    why = "no argmax over the whole probability store"
-    if ok:
-        # the index expression used on S
-        idx_name = None
-        for k, v in src.items():
-            if v is am:
-                idx_name = k
-        idx_txt = idx_name or U(am)
+    """On the returned TERM (locals inlined): the sample store is indexed with the arg-max of the whole probability store."""
+    rz = Resolver(fn)
+    rets = rz.return_terms()
+    txt = U(rets[0])[:200] if rets else ""
+
+    def is_argmax(e):
+        while isinstance(e, ast.Call) and isinstance(e.func, ast.Name) and e.func.id in ("int", "intp") and len(e.args) == 1:
+            e = e.args[0]           # int(argmax(..)) is the same index
+        return U(e) in (f"argmax(self.{st.P})", f"self.{st.P}.argmax()", f"argmax(array(self.{st.P}))", f"array(self.{st.P}).argmax()")
+    ok, why = False, "no return"
+    if len(rets) == 1:
+        t = rets[0]
         if st.kind == "attr":
-            subs = [n for n in ast.walk(ret.value) if isinstance(n, ast.Subscript) and U(n.value) == f"self.{st.S}"]
-            ok = False
+            subs = [n for n in ast.walk(t) if isinstance(n, ast.Subscript) and U(n.value) == f"self.{st.S}"]
             if len(subs) == 1:
                 sl = subs[0].slice
                 first, rest = (sl.elts[0], sl.elts[1:]) if isinstance(sl, ast.Tuple) else (sl, [])
-                ok = U(first) == idx_txt and all(
+                ok = is_argmax(first) and all(
                     isinstance(r, ast.Slice) and r.lower is None and r.upper is None and r.step is None for r in rest)
-            why = f"mode returns `{txt}`"
         else:
-            subs = [n for n in ast.walk(ret.value) if isinstance(n, ast.Subscript) and isinstance(n.value, ast.Attribute)
+            subs = [n for n in ast.walk(t) if isinstance(n, ast.Subscript) and isinstance(n.value, ast.Attribute)
                     and n.value.attr == st.S[1]]
-            lcs = [n for n in ast.walk(ret.value) if isinstance(n, ast.ListComp)]
-            ok = (len(subs) == 1 and U(subs[0].slice) == idx_txt and len(lcs) == 1
+            lcs = [n for n in ast.walk(t) if isinstance(n, ast.ListComp)]
+            ok = (len(subs) == 1 and is_argmax(subs[0].slice) and len(lcs) == 1
                   and U(lcs[0].generators[0].iter) == f"self.{st.S[0]}")
-            why = f"mode returns `{txt}`"
+        why = f"mode returns `{txt}`"
     return struct_ob("mode", qual(c, fn), ok,
                      f"the mode must index the whole sample store {st.S} with argmax of the whole probability store {st.P}: {why}",
                      c.module.relpath, fn.lineno)
